@@ -28,7 +28,15 @@ private:
     static constexpr auto rank = extents_type::rank();
 
 public:
-    constexpr mapping() noexcept               = default;
+    constexpr mapping() noexcept
+        : _extents{}
+        , _strides([]<size_t... Is>(index_sequence<Is...> /*seq*/) {
+            // the strides of layout_right::mapping<extents_type>()
+            return array<index_type, rank>{static_cast<index_type>(extents_type{}.rev_prod_of_extents(Is))...};
+        }(make_index_sequence<rank>()))
+    {
+    }
+
     constexpr mapping(mapping const&) noexcept = default;
 
     template <typename OtherIndexType>
